@@ -79,7 +79,7 @@ def mutation_list(n_in, n_out):
         L.append(("outs-swap", a, b))
     for j in range(n_in):
         L += [("unspent", j, "amount+"), ("unspent", j, "amount-"), ("unspent", j, "script0"), ("unspent", j, "none")]
-    L += [("unspents-short",), ("unspents-empty",)]
+    L += [("unspents-short",), ("unspents-empty",), ("unspents-from-impostor-db",)]
     return [list(x) for x in L]
 
 
@@ -181,6 +181,15 @@ def apply_mutation(tx, mu):
         tx.unspents = tx.unspents[:-1]
     elif k == "unspents-empty":
         tx.unspents = []
+    elif k == "unspents-from-impostor-db":
+        # the records are re-loaded through unspents_from_db from a plain dict whose entries are NOT the transactions the
+        # outpoints name (their ids differ) although they carry the very same outputs: every spent output is then unknown
+        db = {}
+        for kk, ti in enumerate(tx.txs_in):
+            u = tx.unspents[kk]
+            outs = [Tx.TxOut(0, b"")] * min(ti.previous_index, 64) + [Tx.TxOut(u.coin_value, u.script)]
+            db[ti.previous_hash] = Tx(1, [Tx.TxIn(b"\x07" * 32, kk)], outs)
+        tx.unspents_from_db(db, ignore_missing=True)
     else:
         raise ValueError(mu)
     return imap
@@ -257,6 +266,10 @@ class Mutations(Driver):
                     yield dict(coin=coin, kind=kind, ht=ht, few=False)
                     if kind in ("p2pkh", "p2wpkh", "p2sh_ms", "p2wsh_ms"):
                         yield dict(coin=coin, kind=kind, ht=ht, few=True)
+        # hash-type bytes outside the six named ones (consensus reads them as ALL, with or without ANYONECANPAY)
+        for kind in ("p2pkh", "p2wpkh", "p2wsh_ms", "p2sh_p2wpkh"):
+            for ht in (0, 4, 0x1f, 0x84):
+                yield dict(coin="BTC", kind=kind, ht=ht, few=False, relax=True)
         # one-input transactions
         for coin in self.coins:
             for kind in ("p2pkh", "p2sh_ms", "p2wpkh", "p2pk"):
@@ -303,6 +316,10 @@ class Mutations(Driver):
         orig_spent = list(sc.spent)
         n = len(orig["ins"])
         flags_impl = STD if coin not in FORKID else STD & ~R.STRICTENC
+        flags_ref = STD
+        if u.get("relax"):
+            # hash-type bytes outside the six named ones are only valid without the defined-hash-type rule
+            flags_impl = flags_ref = STD & ~R.STRICTENC
         imap = {i: i for i in range(n)}
         try:
             for mu in ms:
@@ -311,7 +328,8 @@ class Mutations(Driver):
             after_bin = tx.as_bin()
         except Exception as e:
             return BAD("mutation-raises", "attribute mutation + serialisation works", "EXC %s: %s" % (type(e).__name__, e), clause="mutation-raises")
-        if ms and after_bin == R.ser(orig) and [None if x is None else (x.coin_value, x.script) for x in tx.unspents] == orig_spent:
+        if ms and after_bin == R.ser(orig) and [None if x is None else (x.coin_value, x.script) for x in tx.unspents] == orig_spent \
+                and not any(m[0] == "unspents-from-impostor-db" for m in ms):
             return OK("trivial-noop")
         txd = R.parse_tx(after_bin)
         changed = kept = 0
@@ -320,7 +338,7 @@ class Mutations(Driver):
             if j is None:
                 continue
             unsp = tx.unspents
-            missing = len(unsp) <= j or unsp[j] is None
+            missing = len(unsp) <= j or unsp[j] is None or any(m[0] == "unspents-from-impostor-db" for m in ms)
             try:
                 iv = bool(tx.is_solution_ok(j, flags=flags_impl))
                 if missing:
@@ -329,7 +347,7 @@ class Mutations(Driver):
             except Exception as e:
                 return BAD("validate-raises", "is_solution_ok returns a verdict", "EXC %s: %s" % (type(e).__name__, e), clause="validate-raises",
                            mu=ms, kind=u["kind"])
-            base_ok, base_why = c05.ref_valid(coin, orig, i, orig_spent[i][1], orig_spent[i][0])
+            base_ok, base_why = c05.ref_valid(coin, orig, i, orig_spent[i][1], orig_spent[i][0], flags=flags_ref)
             if not ms:
                 if not base_ok or not iv:
                     return BAD("baseline", "freshly signed input %d validates (reference: %s %s)" % (i, base_ok, base_why), "is_solution_ok=%s" % iv,
@@ -340,7 +358,7 @@ class Mutations(Driver):
                 exp, why = False, "spent output unknown"
             else:
                 amount, spk = unsp[j].coin_value, bytes(unsp[j].script)
-                exp, why = c05.ref_valid(coin, txd, j, spk, amount)
+                exp, why = c05.ref_valid(coin, txd, j, spk, amount, flags=flags_ref)
                 if base_ok:
                     # secondary oracle (guards the reference): field-level view, relative to the valid baseline
                     wstyle = (coin in FORKID or u["kind"] in c05.WITNESS_KINDS) if i < 2 else coin in FORKID
